@@ -1026,3 +1026,287 @@ Proof.
   reflexivity.
 Qed.
 End Strp.
+
+Theorem strptime_posix : forall md cfg c fmt s,
+  civil_ranges md c -> parse_fmt (split_format fmt "") = true -> posix c (split_format fmt "") = Some s ->
+  strptime STRFTIME_TABLE md cfg s fmt = parsed_call md cfg c (split_format fmt "").
+Proof.
+  intros md cfg c fmt s R P PS. rewrite strptime_unfold.
+  assert (S : supported_fmt (split_format fmt "") = true) by (unfold parse_fmt in P; apply andb_true_iff in P; tauto).
+  rewrite (build_p_toks _ S). apply parse_call; assumption.
+Qed.
+
+(* ---------- the value of that constructor call (formats without %j) ---------- *)
+(* the zone a parser falls back on: assumed_time_zone, else UTC when
+   default_to_unknown_time_zone (the constructor's default), else the local zone *)
+Definition cfg_zone (cfg : pcfg) : zone :=
+  match c_assumed cfg with
+  | Some (h, m) => mkZone h m
+  | None => if c_unknown cfg then mkZone 0 0 else mkZone (fst (c_local cfg)) (snd (c_local cfg))
+  end.
+
+Definition parsed_point (cfg : pcfg) (c : civil) (items : list fitem) : tp :=
+  mkTp (if uses ["%j"] items
+        then Ord (if uses ["%Y"; "%F"] items then cy c else 0) (cdoy c)
+        else Cal (if uses ["%Y"; "%F"] items then cy c else 0)
+                 (if uses ["%m"; "%F"] items then cm c else 1)
+                 (if uses ["%d"; "%F"] items then cd c else 1))
+       (HMS (qz (if uses ["%H"; "%X"] items then ch c else 0))
+            (qz (if uses ["%M"; "%X"] items then cmi c else 0))
+            (qz (if uses ["%S"; "%X"] items then cs c else 0)))
+       (if uses ["%z"] items then mkZone (czh c) (czm c) else cfg_zone cfg).
+
+Lemma zone_stage_valid a b : valid_zone (mkZone a b) = true -> zone_stage (Some (a, Some b)) = POk (Some (mkZone a b)).
+Proof.
+  unfold valid_zone, zone_stage. cbn [zh zm]. intros V.
+  replace (negb ((-99 <=? a) && (a <=? 99))) with false by lia.
+  destruct (0 <? a) eqn:E1; destruct (a <? 0) eqn:E2;
+    match goal with |- context [if negb ?x then _ else _] => replace (negb x) with false by lia end; reflexivity.
+Qed.
+
+Lemma cfg_zone_stage cfg : valid_zone (cfg_zone cfg) = true ->
+  exists zn, zone_num cfg [] = POk zn /\ zone_stage zn = POk (Some (cfg_zone cfg)).
+Proof.
+  unfold cfg_zone, zone_num. destruct (c_assumed cfg) as [[h m]|].
+  - intros V. eexists. split; [reflexivity|]. apply zone_stage_valid. exact V.
+  - destruct (c_unknown cfg).
+    + intros _. eexists. split; reflexivity.
+    + intros V. eexists. split; [reflexivity|]. apply zone_stage_valid. exact V.
+Qed.
+
+Lemma mlen_jan md y y' m : 1 <= m <= 12 -> mlen md y m <= mlen md y' 1.
+Proof.
+  intros H. unfold mlen, months. cases12 m; destruct md, (is_leap y), (is_leap y'); vm_compute; discriminate.
+Qed.
+Lemma mlen_year0 md y m : 1 <= m <= 12 -> mlen md y m <= mlen md 0 m.
+Proof.
+  intros H. unfold mlen, months. change (is_leap 0) with true.
+  cases12 m; destruct md, (is_leap y); vm_compute; discriminate.
+Qed.
+Lemma valid_cal_default md y m d (uY uM uD : bool) : valid_cal md y m d = true ->
+  valid_cal md (if uY then y else 0) (if uM then m else 1) (if uD then d else 1) = true.
+Proof.
+  intros V. destruct (cal_range _ _ _ _ V) as (A & B & _).
+  pose proof (mlen_jan md y y m A). pose proof (mlen_jan md y 0 m A). pose proof (mlen_year0 md y m A).
+  pose proof (mlen_bounds md y 1 ltac:(lia)). pose proof (mlen_bounds md 0 1 ltac:(lia)).
+  pose proof (mlen_bounds md 0 m A). pose proof (mlen_bounds md y m A).
+  unfold valid_cal. destruct uY, uM, uD; lia.
+Qed.
+
+Lemma tod_ok_int h m s : 0 <= h < 24 -> 0 <= m < 60 -> 0 <= s < 60 ->
+  tod_fields_ok (Some (qz h)) (Some (qz m)) (Some (qz s)) = true.
+Proof.
+  intros Hh Hm Hs. unfold tod_fields_ok, in_rngq, below_q.
+  assert (E : qeqb (qz h) 24 = false).
+  { apply qeqb_false. intros X. unfold qz in X. change 24%Q with (inject_Z 24) in X. rewrite inject_Z_injective in X. lia. }
+  rewrite E. unfold qz.
+  rewrite !qleb_true by (apply le_inj; lia). rewrite !qltb_true by (apply lt_inj; lia). reflexivity.
+Qed.
+
+Lemma valid_ord_default md y doy (uY : bool) : valid_ord md y doy = true ->
+  valid_ord md (if uY then y else 0) doy = true.
+Proof.
+  intros V. assert (L : ylen md y <= ylen md 0).
+  { unfold ylen. change (is_leap 0) with true. destruct md, (is_leap y); lia. }
+  unfold valid_ord in *. destruct uY; lia.
+Qed.
+
+(* a day of the year excludes month and day of month (the constructor refuses the mix) *)
+Definition date_dirs_ok (items : list fitem) : bool :=
+  negb (uses ["%j"] items) || (negb (uses ["%m"; "%F"] items) && negb (uses ["%d"; "%F"] items)).
+
+Theorem parsed_call_value : forall md cfg c items,
+  civil_ranges md c -> date_dirs_ok items = true ->
+  (uses ["%z"] items = false -> valid_zone (cfg_zone cfg) = true) ->
+  exists pp, parsed_call md cfg c items = POk pp /\
+             ptp_to_tp pp = Some (parsed_point cfg c items) /\ valid_tp md (parsed_point cfg c items) = true.
+Proof.
+  intros md cfg c items R DJ VZ. unfold parsed_call, parsed_point.
+  set (uY := uses ["%Y"; "%F"] items).
+  set (uH := uses ["%H"; "%X"] items). set (uMi := uses ["%M"; "%X"] items). set (uS := uses ["%S"; "%X"] items).
+  assert (ZS : exists zn, (if uses ["%z"] items then POk (Some (czh c, Some (czm c))) else zone_num cfg []) = POk zn /\
+                          zone_stage zn = POk (Some (if uses ["%z"] items then mkZone (czh c) (czm c) else cfg_zone cfg))).
+  { destruct (uses ["%z"] items).
+    - eexists. split; [reflexivity|]. apply zone_stage_valid. exact (cr_zone _ _ R).
+    - apply cfg_zone_stage. apply VZ. reflexivity. }
+  destruct ZS as (zn & Z1 & Z2). rewrite Z1. cbn [pbind].
+  set (Z := if uses ["%z"] items then mkZone (czh c) (czm c) else cfg_zone cfg) in *.
+  set (Y := if uY then cy c else 0).
+  set (H := if uH then ch c else 0). set (MI := if uMi then cmi c else 0). set (SS := if uS then cs c else 0).
+  assert (VT : tod_fields_ok (Some (qz H)) (Some (qz MI)) (Some (qz SS)) = true).
+  { pose proof (cr_h _ _ R). pose proof (cr_mi _ _ R). pose proof (cr_s _ _ R).
+    apply tod_ok_int; unfold H, MI, SS; [destruct uH | destruct uMi | destruct uS]; lia. }
+  assert (EH : dfl_h (opt uH (qz (ch c))) = Some (qz H)) by (unfold H; destruct uH; reflexivity).
+  assert (EM : dfl_m None (opt uMi (qz (cmi c))) = Some (qz MI)) by (unfold MI; destruct uMi; reflexivity).
+  assert (ES : dfl_s None None (opt uS (qz (cs c))) = Some (qz SS)) by (unfold SS; destruct uS; reflexivity).
+  assert (OH : oint (opt uH (qz (ch c)))).
+  { unfold opt. destruct uH; cbn [oint]; [apply qis_int_iff, isint_Z | exact I]. }
+  assert (OM : oint (opt uMi (qz (cmi c)))).
+  { unfold opt. destruct uMi; cbn [oint]; [apply qis_int_iff, isint_Z | exact I]. }
+  unfold date_dirs_ok in DJ. destruct (uses ["%j"] items) eqn:UJ.
+  - (* ordinal date *)
+    cbn [negb orb] in DJ. apply andb_true_iff in DJ. destruct DJ as [UM UD].
+    apply negb_true_iff in UM, UD. rewrite UM, UD.
+    assert (VO : valid_ord md Y (cdoy c) = true) by (apply valid_ord_default; exact (cr_ord _ _ R)).
+    assert (EQ : construct md (Some Y) (opt false (cm c)) (opt false (cd c)) (opt true (cdoy c)) None None
+                   (opt uH (qz (ch c))) None (opt uMi (qz (cmi c))) None (opt uS (qz (cs c))) None zn false "" 0 "" false =
+                 POk (mkPtp (Some Y) None None (Some (cdoy c)) None None (Some (qz H)) (Some (qz MI)) (Some (qz SS)) (Some Z) false "" 0 "")).
+    { rewrite construct_eq. cbn [dec_h dec_m dec_s pbind opt]. unfold tail. rewrite Z2.
+      cbn [conflict truthy is_some orb andb date_dfl].
+      rewrite EH, EM, ES, check_bounds_eq, date_chk_ord, VO, VT. reflexivity. }
+    rewrite EQ. eexists. split; [reflexivity|]. split; [reflexivity|].
+    destruct (construct_valid _ _ _ _ _ _ _ _ _ _ _ _ _ _ _ _ _ _ OH OM EQ) as (q & Eq & Vq).
+    change (Some (mkTp (Ord Y (cdoy c)) (HMS (qz H) (qz MI) (qz SS)) Z) = Some q) in Eq.
+    inversion Eq as [Eq']. rewrite Eq'. exact Vq.
+  - (* calendar date *)
+    set (uM := uses ["%m"; "%F"] items). set (uD := uses ["%d"; "%F"] items).
+    set (M := if uM then cm c else 1). set (D := if uD then cd c else 1).
+    assert (VC : valid_cal md Y M D = true) by (apply valid_cal_default; exact (cr_cal _ _ R)).
+    assert (EQ : construct md (Some Y) (opt uM (cm c)) (opt uD (cd c)) (opt false (cdoy c)) None None
+                   (opt uH (qz (ch c))) None (opt uMi (qz (cmi c))) None (opt uS (qz (cs c))) None zn false "" 0 "" false =
+                 POk (mkPtp (Some Y) (Some M) (Some D) None None None (Some (qz H)) (Some (qz MI)) (Some (qz SS)) (Some Z) false "" 0 "")).
+    { rewrite construct_eq. cbn [dec_h dec_m dec_s pbind opt]. unfold tail. rewrite Z2.
+      assert (CF : conflict (opt uM (cm c)) (opt uD (cd c)) None None None = false).
+      { unfold conflict. cbn [truthy is_some orb]. rewrite !andb_false_r. reflexivity. }
+      rewrite CF.
+      assert (DF : date_dfl (opt uM (cm c)) (opt uD (cd c)) None None None = (Some M, Some D, None, None)).
+      { unfold M, D. destruct uM, uD; reflexivity. }
+      rewrite DF, EH, EM, ES, check_bounds_eq, date_chk_cal, VC, VT. reflexivity. }
+    rewrite EQ. eexists. split; [reflexivity|]. split; [reflexivity|].
+    destruct (construct_valid _ _ _ _ _ _ _ _ _ _ _ _ _ _ _ _ _ _ OH OM EQ) as (q & Eq & Vq).
+    change (Some (mkTp (Cal Y M D) (HMS (qz H) (qz MI) (qz SS)) Z) = Some q) in Eq.
+    inversion Eq as [Eq']. rewrite Eq'. exact Vq.
+Qed.
+
+Theorem strptime_defaults : forall md cfg c fmt s,
+  civil_ranges md c -> parse_fmt (split_format fmt "") = true -> date_dirs_ok (split_format fmt "") = true ->
+  (uses ["%z"] (split_format fmt "") = false -> valid_zone (cfg_zone cfg) = true) ->
+  posix c (split_format fmt "") = Some s ->
+  exists pp, strptime STRFTIME_TABLE md cfg s fmt = POk pp /\
+             ptp_to_tp pp = Some (parsed_point cfg c (split_format fmt "")) /\
+             valid_tp md (parsed_point cfg c (split_format fmt "")) = true.
+Proof.
+  intros md cfg c fmt s R P DJ VZ PS. rewrite (strptime_posix md cfg c fmt s R P PS).
+  apply parsed_call_value; assumption.
+Qed.
+
+(* ================================================================== *)
+(* 8. the civil reading characterised; the round trip                  *)
+(* ================================================================== *)
+Lemma civil_point md p : valid_tp md p = true ->
+  exists r, normal_tp md r = true /\ rep_kind (tdate r) <> 2 /\ (instant md r == instant md p)%Q /\ tzone r = tzone p.
+Proof.
+  intros V. destruct (calendarised md p V) as (q & _ & Vq & Iq & Kq & Zq).
+  destruct (normalised_spec md q Vq) as (Nr & Ir & Kr & _ & Zr).
+  exists (normalised md q). repeat split; try assumption; try congruence. rewrite Ir. exact Iq.
+Qed.
+
+(* civil_of is the unique reading: a valid calendar date, the same day as an
+   ordinal date, a time of day, and together they are the whole local second *)
+Theorem civil_of_spec : forall md p c, civil_of md p = Some c ->
+  valid_cal md (cy c) (cm c) (cd c) = true /\ valid_ord md (cy c) (cdoy c) = true /\
+  dn_ord md (cy c) (cdoy c) = dn_cal md (cy c) (cm c) (cd c) /\
+  0 <= ch c < 24 /\ 0 <= cmi c < 60 /\ 0 <= cs c < 60 /\
+  czh c = zh (tzone p) /\ czm c = zm (tzone p) /\ valid_zone (mkZone (czh c) (czm c)) = true /\
+  Qfloor (local_secs md p) = 86400 * dn_cal md (cy c) (cm c) (cd c) + 3600 * ch c + 60 * cmi c + cs c /\
+  cunix c = Qfloor (instant md p - epoch_instant md).
+Proof.
+  intros md p c CO. unfold civil_of in CO. destruct (valid_tp md p) eqn:V; [|discriminate]. inversion CO as [CE]. clear CO. subst c.
+  destruct (civil_point md p V) as (r & Nr & Kr & Ir & Zr).
+  assert (CR : civil_at md p = civil_at md r) by (apply civil_at_ext; [symmetry; exact Ir | congruence]).
+  destruct (civil_normal md r Nr Kr) as (HC & HO & HY & HH & HM & HS & VC & VO & Rh & Rm & Rs & DN & FT).
+  destruct (normal_tp_parts md r Nr) as (VD & NT & VZ).
+  rewrite <- CR in *. clear CR.
+  assert (DO : dn_ord md (cy (civil_at md p)) (cdoy (civil_at md p)) = date_dn md (tdate r)).
+  { destruct (get_ordinal_date_spec md _ VD) as (y2 & doy2 & E2 & V2 & D2). rewrite HO in E2. inversion E2; subst. exact D2. }
+  repeat split; try assumption; try lia; try reflexivity.
+  - unfold civil_at. cbn [czh czm]. rewrite <- Zr. destruct (tzone p); exact VZ.
+  - rewrite DN. transitivity (86400 * date_dn md (tdate r) + Qfloor (tod_secs (ttod r))); [|lia].
+    assert (L : (local_secs md p == inject_Z (86400 * date_dn md (tdate r)) + tod_secs (ttod r))%Q).
+    { rewrite <- local_secs_eq. unfold local_secs. rewrite Ir, Zr. reflexivity. }
+    rewrite (Qfloor_comp _ _ L). apply floor_add_int.
+Qed.
+
+Lemma civil_of_ranges md p c : civil_of md p = Some c -> 0 <= cy c <= 9999 -> civil_ranges md c.
+Proof.
+  intros CO Ry. destruct (civil_of_spec md p c CO) as (A1 & A2 & _ & A3 & A4 & A5 & _ & _ & A6 & _).
+  constructor; assumption.
+Qed.
+
+Definition whole_second (md : mode) (p : tp) : Prop := qis_int (instant md p) = true.
+
+(* a format that determines date, time and zone, one way only *)
+Definition full_fmt (items : list fitem) : bool :=
+  parse_fmt items && uses ["%Y"; "%F"] items &&
+  (if uses ["%j"] items then negb (uses ["%m"; "%F"] items) && negb (uses ["%d"; "%F"] items)
+   else uses ["%m"; "%F"] items && uses ["%d"; "%F"] items) &&
+  uses ["%H"; "%X"] items && uses ["%M"; "%X"] items && uses ["%S"; "%X"] items && uses ["%z"] items.
+
+Theorem strftime_strptime_roundtrip : forall ned md cfg p fmt c,
+  valid_tp md p = true -> civil_of md p = Some c -> 0 <= cy c <= 9999 -> whole_second md p ->
+  full_fmt (split_format fmt "") = true -> stray_pct (split_format fmt "") = false ->
+  exists s pp q, strftime ned STRFTIME_TABLE md p fmt = DOk s /\
+                 strptime STRFTIME_TABLE md cfg s fmt = POk pp /\
+                 ptp_to_tp pp = Some q /\ tp_cmp md q p = Some Eq.
+Proof.
+  intros ned md cfg p fmt c V CO Ry W F NS. set (items := split_format fmt "") in *.
+  unfold full_fmt in F. do 6 (apply andb_true_iff in F; destruct F as [F ?]).
+  match goal with H : (if _ then _ else _) = true |- _ => rename H into FD end.
+  assert (DJ : date_dirs_ok items = true).
+  { unfold date_dirs_ok. destruct (uses ["%j"] items); [exact FD | reflexivity]. }
+  assert (S : supported_fmt items = true) by (unfold parse_fmt in F; apply andb_true_iff in F; tauto).
+  assert (US : uses ["%s"] items = false).
+  { unfold parse_fmt in F. apply andb_true_iff in F. destruct F as [_ F]. apply negb_true_iff in F. exact F. }
+  destruct (strftime_posix ned md p fmt c V CO Ry S NS) as (s & E1 & E2).
+  { fold items. rewrite US. discriminate. }
+  pose proof (civil_of_ranges md p c CO Ry) as R.
+  destruct (strptime_defaults md cfg c fmt s R F DJ ltac:(fold items; congruence) E2) as (pp & E3 & E4 & Vq).
+  exists s, pp, (parsed_point cfg c items). repeat split; try assumption.
+  rewrite (tp_cmp_spec md (parsed_point cfg c items) p Vq V). f_equal. apply Qeq_alt.
+  destruct (civil_of_spec md p c CO) as (_ & _ & DO & _ & _ & _ & Zh & Zm & _ & FL & _).
+  unfold parsed_point. fold items.
+  assert (ED : date_dn md (if uses ["%j"] items
+                           then Ord (if uses ["%Y"; "%F"] items then cy c else 0) (cdoy c)
+                           else Cal (if uses ["%Y"; "%F"] items then cy c else 0)
+                                    (if uses ["%m"; "%F"] items then cm c else 1)
+                                    (if uses ["%d"; "%F"] items then cd c else 1)) =
+               dn_cal md (cy c) (cm c) (cd c)).
+  { repeat match goal with H : uses _ items = true |- _ => rewrite H end.
+    destruct (uses ["%j"] items); cbn [date_dn]; [exact DO|].
+    apply andb_true_iff in FD. destruct FD as [F1 F2]. rewrite F1, F2. reflexivity. }
+  unfold instant at 1. cbn [tdate ttod tzone tod_secs]. rewrite ED.
+  repeat match goal with H : uses _ items = true |- _ => rewrite H; clear H end.
+  unfold whole_second in W.
+  assert (LI : (local_secs md p == inject_Z (Qfloor (local_secs md p)))%Q).
+  { assert (I : isint (local_secs md p)).
+    { unfold local_secs, qz. apply isint_add; [apply qis_int_iff; exact W | apply isint_Z]. }
+    destruct I as [z Hz]. rewrite (Qfloor_comp _ _ Hz), Qfloor_Z. exact Hz. }
+  rewrite FL in LI. unfold local_secs in LI.
+  unfold zone_secs in *. cbn [zh zm]. rewrite Zh, Zm.
+  unfold qz in *. rewrite !inject_Z_plus, !inject_Z_mult in *.
+  change (inject_Z 3600) with 3600%Q in *. change (inject_Z 60) with 60%Q in *. change (inject_Z 86400) with 86400%Q in *.
+  lra.
+Qed.
+
+(* ================================================================== *)
+(* 9. the table is exactly the eleven; the refuted unrestricted %s     *)
+(* ================================================================== *)
+Theorem table_exact :
+  length STRFTIME_TABLE = 11%nat /\
+  SUPPORTED = ["%Y"; "%m"; "%d"; "%j"; "%H"; "%M"; "%S"; "%F"; "%X"; "%z"; "%s"] /\
+  forallb (fun row => mem (fst row) SUPPORTED) STRFTIME_TABLE = true /\
+  forallb (fun d => mem d (map fst STRFTIME_TABLE)) SUPPORTED = true.
+Proof. vm_compute. repeat split; reflexivity. Qed.
+
+(* %s without the restriction of strftime_posix is FALSE of the model (and of
+   the package: int() truncates toward zero): half a second before the epoch
+   prints Unix time 0 although %S of the same call prints 59; POSIX time_t
+   of that instant is -1 *)
+Definition p_before_epoch : tp := mkTp (Cal 1969 12 31) (HMS 23 59 (119 # 2)) (mkZone 0 0).
+Theorem strftime_unix_refuted :
+  valid_tp G p_before_epoch = true /\
+  strftime 2 STRFTIME_TABLE G p_before_epoch "%S %s" = DOk "59 0" /\
+  match civil_of G p_before_epoch with
+  | Some c => posix c (split_format "%S %s" "") = Some "59 -1"
+  | None => False end.
+Proof. vm_compute. repeat split; reflexivity. Qed.
